@@ -228,7 +228,7 @@ def history_case(draw):
         if k == "locus":
             ops.append([k, draw(st.sampled_from(["assemble", "call"])), draw(st.integers(0, len(spec["loci"]) - 1))])
         elif k.startswith("fit"):
-            ops.append([k, draw(st.integers(0, 1))])
+            ops.append([k, draw(st.integers(0, 1)), draw(st.integers(0, 1))])  # instance, read set
         else:
             ops.append([k, draw(st.integers(1, 7))])
     return {"kind": "history", "spec": spec, "fits": fits, "ops": ops, "seed": draw(st.sampled_from([0, 0, 1, 42]) if draw(st.booleans()) else st.integers(0, 10000))}
@@ -268,6 +268,7 @@ def check_history(ctx, case):
                 return s
 
             seen = {}
+            models = {}
             last_key = None
             since = {}
             for op in case["ops"]:
@@ -277,21 +278,39 @@ def check_history(ctx, case):
                 elif op[0] in ("fit_call", "fit_assemble", "fit_pedigree"):
                     inst = case["fits"][op[1]]
                     R_arr, C_arr, H, f = GC.arrays(inst)
-                    key = (op[0], op[1])
-                    if op[0] == "fit_call":
-                        tr = CallingMCMC(ploidy=inst["ploidy"], haplotypes=H, frequencies=f, inbreeding=inst["inbreeding"], steps=30, chains=2, random_seed=case["seed"]).fit(R_arr, C_arr)
-                        res = (tr.genotypes.tobytes(), tr.llks.tobytes())
-                    elif op[0] == "fit_assemble":
-                        tr = DenovoMCMC(ploidy=inst["ploidy"], n_alleles=inst["n_alleles"], inbreeding=inst["inbreeding"], steps=30, chains=2, random_seed=case["seed"], temperatures=(0.5, 1.0)).fit(R_arr, C_arr)
-                        res = (tr.genotypes.tobytes(), tr.llks.tobytes())
-                    else:
-                        n_h = len(inst["haplotypes"])
-                        reads = np.stack([R_arr, R_arr])
-                        counts = np.stack([C_arr, C_arr])
-                        tr = PedigreeCallingMCMC(sample_ploidy=np.array([2, 2]), sample_inbreeding=np.zeros(2), sample_parents=np.array([[-1, -1], [0, -1]]),
-                                                 gamete_tau=np.array([[1, 1], [1, 1]]), gamete_lambda=np.zeros((2, 2)), gamete_error=np.full((2, 2), 0.01),
-                                                 haplotypes=H, steps=30, annealing=10, chains=2, random_seed=case["seed"]).fit(reads, counts)
-                        res = tr.genotypes.tobytes()
+                    readset = op[2] if len(op) > 2 else 0
+                    if readset == 1:
+                        # a second, different read set for the same model (same haplotypes / ploidy)
+                        R_arr = np.ascontiguousarray(R_arr[::-1][: max(1, len(R_arr) - 1)])
+                        C_arr = np.ascontiguousarray((C_arr[::-1] + 1)[: len(R_arr)])
+                    key = (op[0], op[1], readset)
+
+                    def build(kind):
+                        if kind == "fit_call":
+                            return CallingMCMC(ploidy=inst["ploidy"], haplotypes=H, frequencies=f, inbreeding=inst["inbreeding"], steps=30, chains=2, random_seed=case["seed"])
+                        if kind == "fit_assemble":
+                            return DenovoMCMC(ploidy=inst["ploidy"], n_alleles=inst["n_alleles"], inbreeding=inst["inbreeding"], steps=30, chains=2, random_seed=case["seed"], temperatures=(0.5, 1.0))
+                        return PedigreeCallingMCMC(sample_ploidy=np.array([2, 2]), sample_inbreeding=np.zeros(2), sample_parents=np.array([[-1, -1], [0, -1]]),
+                                                   gamete_tau=np.array([[1, 1], [1, 1]]), gamete_lambda=np.zeros((2, 2)), gamete_error=np.full((2, 2), 0.01),
+                                                   haplotypes=H, steps=30, annealing=10, chains=2, random_seed=case["seed"])
+
+                    def fit(model, kind):
+                        if kind == "fit_pedigree":
+                            tr = model.fit(np.stack([R_arr, R_arr]), np.stack([C_arr, C_arr]))
+                            return tr.genotypes.tobytes()
+                        tr = model.fit(R_arr, C_arr)
+                        return (tr.genotypes.tobytes(), tr.llks.tobytes())
+
+                    # the same model object is reused for every fit of this instance (whatever the reads were before)...
+                    mkey = (op[0], op[1])
+                    if mkey not in models:
+                        models[mkey] = build(op[0])
+                    res = fit(models[mkey], op[0])
+                    # ... and must give what a freshly built model gives
+                    fresh = fit(build(op[0]), op[0])
+                    if res != fresh:
+                        problems.append(Problem("history:reused_model_differs_from_fresh:" + op[0], "a %s model object that was fitted before (history %s) gives a different trace than a freshly constructed one for the same reads and seed" % (op[0][4:], case["ops"])))
+                        return problems
                 elif op[0] == "numpy":
                     np.random.random(op[1])
                     np.random.shuffle(np.arange(5))
